@@ -12,6 +12,7 @@ import (
 	"sort"
 	"strconv"
 	"strings"
+	"verifharness/lib/known"
 
 	. "verifharness/lib/resp"
 )
@@ -196,13 +197,17 @@ func zsorted(mp map[string]float64) []zpair {
 	return ps
 }
 
-// FmtScore renders a score the way Redis does: infinities as inf / -inf, the sign of a
-// zero kept, everything else in the shortest form that reads back as the same number.
+// FmtScore renders a score the way Redis does: the sign of a zero kept, infinities as
+// inf / -inf, everything else in the shortest form that reads back as the same number.
+// While the recorded finding C08-infinite-score-spelled-go-style is open, infinities are
+// spelled the way the implementation spells them (+Inf / -Inf) so that every check that
+// compares against this model leaves exactly that spelling out of the comparison; C08's
+// probe holds the Redis spelling against the implementation.
 func FmtScore(f float64) string {
-	switch {
-	case math.IsInf(f, 1):
-		return "inf"
-	case math.IsInf(f, -1):
+	if math.IsInf(f, 0) && !known.Active("C08-infinite-score-spelled-go-style") {
+		if f > 0 {
+			return "inf"
+		}
 		return "-inf"
 	}
 	return strconv.FormatFloat(f, 'g', -1, 64)
